@@ -28,9 +28,22 @@ CLAIM = dict(
          'valid tensors of the expected mode sizes (C11_anova_cores_1_wf, C11_anova_pair_wf, C11_add_wf, C11_add_many_wf; '
          'the models Anova.v / ActOne.v behind these four are tied to the code by the C13 / C01 correspondences, here '
          'only through the implementation-level search); '
+         'qtt_to_tt returns a valid tensor of mode sizes 2^q for every valid QTT chain, core_tt_to_qtt / tt_to_qtt return '
+         'valid QTT chains for EVERY factorisation routine meeting only the shape half of its contract (no exactness: '
+         'zero / rank-deficient / over-ranked cores, e = 0) (C11_qtt_to_tt_wf, C11_core_tt_to_qtt_wf, C11_tt_to_qtt_wf); '
+         'als, als_func (every sample list and solver) and cross (however the run ends) return tensors with the mode sizes '
+         'and chained ranks >= 1 of the initial approximation (C11_als_wf, C11_als_func_wf, C11_cross_wf = re-exports of the '
+         'C07 / C06 invariants, storage clause not included; degenerate instances d = 2, n = 1, rank 1, repeated samples, '
+         'zero data in C11_als_degenerate_example, C11_cross_degenerate_example); func_int keeps validity (DCT-I for mode '
+         'sizes >= 2, size 1 rejected with an exception; DST-I always) and func_int_general returns a valid tensor whose '
+         'mode sizes are the numbers of basis functions (C11_func_int_wf, C11_func_int_rejects_size1, '
+         'C11_func_int_general_wf); '
          '(3) over the guarded carrier OG K (a poison flag raised by x/0 and sqrt(x<0), propagated by arithmetic, '
          'comparisons with a poisoned operand false) the repaired matrix_svd returns clean factors for every matrix '
-         'and every eigh / argsort (C11_matrix_svd_no_zero_div), the pre-repair rule is poisoned on the 1x2 zero matrix '
+         'and every eigh / argsort (C11_matrix_svd_no_zero_div) - indeed the guarded run returns exactly the embedding of the plain result, same values '
+         'and all flags down, for matrix_svd and for accuracy_of (C11_matrix_svd_guarded_is_plain, '
+         'C11_accuracy_guarded_is_plain; the same projection for truncate / matrix_skeleton / accuracy_on_data is not '
+         'proved: partial) -, the pre-repair rule is poisoned on the 1x2 zero matrix '
          '(C11_matrix_svd_pinned_refuted), matrix_skeleton(rel=True) on singular values that are all zero cuts no rank '
          'and keeps its factors clean (C11_skeleton_rel_zero_rank, C11_skeleton_clean), and accuracy (the code after the two '
          'norms, with the zero-difference shortcut of 0f9009d) returns 0, the saturation value, -1 or the quotient, the '
@@ -41,9 +54,10 @@ CLAIM = dict(
          'Partial: finiteness (no overflow, no NaN) of float results is not a Coq theorem; it is validated on every run: '
          'the models at binary64 with replayed LAPACK outputs agree with the implementation (shapes exactly, dense '
          'tensors to 1e-9) on the degenerate catalogue, and a search checks np.isfinite + well-formedness of every '
-         'TT-returning routine and finiteness / sentinel of the scalar functions on that catalogue. tt_to_qtt, als, cross, '
-         'func_int and the composition of the ANOVA pieces into anova(order=2) are covered by that search '
-         'only (no C11 theorem).',
+         'TT-returning routine and finiteness / sentinel of the scalar functions on that catalogue. The '
+         'composition of the ANOVA pieces into anova(order=2) and anova_func are covered by that search only (no C11 theorem); '
+         'the models Qtt.v / Als.v / AlsFunc.v / Cross.v / Func.v are tied to the code by the C17 / C07 / C06 / C12 '
+         'correspondences, here only through the implementation-level search.',
     note='Trusted: Coq kernel; vm_compute for case evaluation; hand-written models Model/Svd.v, Model/Transformation.v, '
          'Model/Stab.v, Model/Wf.v tied to teneva by the correspondence; shape contracts of LAPACK qr / rq / svd '
          '(validated on every recorded call); the order facts 0<x -> x<>0, not 0<0, 0==0 about the carrier (proved for '
